@@ -24,6 +24,9 @@ CHECKS = {
  "C20": dict(technique="CrossHair symbolic execution of model/diff.py under a deterministic sys.monitoring step budget (edit choice, compared texts over an astral alphabet, start offsets symbolic) against typed-token prefix/suffix reference",
              text="For every (before, after) pair obtained from a catalogue document by one edit at any node - sharing untouched sub-trees by identity, independently rebuilt, or swapped - the solver explores every path of find_diff_start/find_diff_end with symbolic compared texts (incl. surrogate pairs sharing a high surrogate) and symbolic start offsets; termination is an assertion (step budget) and results equal the longest common prefix/suffix of the typed token sequences.",
              ref="4/C20"),
+ "C14": dict(technique="CrossHair symbolic execution of model/mark.py and the mark parts of model/schema.py with a lazily-symbolic exclusion relation (solver booleans decided when excludes() consults them), symbolic attribute ints, membership and permission bits",
+             text="For an arbitrary exclusion relation over 3 (thorough 4) mark types chosen by the solver along each path, every canonical set of the mark instances and every added/removed mark, add_to_set/remove_from_set/is_in_set/same_set/set_from/allowed_marks/allows_marks equal the reference mark-set algebra and results stay canonical; sequences of three additions and a removal from the empty set are followed step by step; the compilation of excludes/marks spec strings ('_', '', absent, names, groups) by Schema() yields exactly the denoted relation.",
+             ref="4/C14"),
 }
 CHECKS_END = None
 
